@@ -29,6 +29,8 @@ for _k in range(1, 20):
     HARMLESS_CHECKS["R3_C%02d_optimisation" % _k] = sorted({"C%02d" % _k, "C19"})
     # round 4: structural refactorings over several modules (import style, helpers renamed / moved / split, decorators, type hints)
     HARMLESS_CHECKS["R4_C%02d_structural" % _k] = sorted({"C%02d" % _k, "C19"})
+    # round 5: numerically benign algebraic rewrites (NOT bit-identical: einsum, Horner, reciprocals, hoisting; a few ulps)
+    HARMLESS_CHECKS["R5_C%02d_rounding" % _k] = sorted({"C%02d" % _k, "C19"})
 
 
 def _run(patch, props):
